@@ -76,10 +76,10 @@ def classify_write(arg):
     return ("other", arg)
 
 
-def writer_trace(T, M, meth, x):
+def writer_trace(T, M, meth, x, pyver=(3, 8)):
     sp = Spec(T.F, opaque_funcs={"xdis.marsh._Marshaller.dump"})
     me = Instance(M)
-    me.attrs.update(_write=Sym("WRITE"), python_version=(3, 8))
+    me.attrs.update(_write=Sym("WRITE"), python_version=pyver)
     out = sp.run(M.lookup(meth), [me, x])
     trace = []
     depth = 0
